@@ -76,6 +76,22 @@ def list_strings(rnd):
     return out
 
 
+def boundary_infos(rnd):
+    """one-archive strings whose retention is the largest multiple of the step that a signed 32-bit
+    duration holds (and its neighbours one step below and above), steps from every unit"""
+    out = []
+    for u, m in UNITS.items():
+        for step in (m, m * rnd.randint(2, 12), m * rnd.randint(2, 10 ** 4), rnd.randint(2, MAXI32)):
+            if step > MAXI32:
+                continue
+            top = (MAXI32 // step) * step
+            for ret in (top, top - step, top + step):
+                if ret > 0:
+                    out.append('%s:%s' % (dur_str(step), dur_str(ret) if rnd.chance(0.5) else '%ds' % ret))
+    out += ['2147483647s:2147483647s', '2s:2147483646s', '3s:2147483646s', '60s:2147483640s', '1073741824s:1073741824s', '1073741823s:2147483646s']
+    return out
+
+
 def gen_c19(rnd, n, thorough=False):
     cases = []
     alphabet = '0129smhdwy-x:,'
@@ -121,6 +137,11 @@ def gen_c19(rnd, n, thorough=False):
                 add('flaglist', 'flaglist %s' % S(s))
             if ',' not in s:
                 add('pinfo', 'pinfo %s' % S(s))
+        for s in rnd.sample(boundary_infos(rnd), 5):
+            add('pinfo', 'pinfo %s' % S(s))
+            add('plist', 'plist %s' % S(rnd.pick(['', '1s:1m,']) + s))
+            if rnd.chance(0.3):
+                add('flaglist', 'flaglist %s' % S(s))
         lname, layout = pick_layout(rnd)
         add('slist', 'slist %s' % fmt_layout(layout))
         add('plist', 'plist %s' % S(retention_string(layout)))
@@ -157,6 +178,8 @@ def boundary_layouts(rnd):
     out.append(('zero_step', repl(i, (0, n))))
     out.append(('zero_points', repl(i, (s, 0))))
     out.append(('negative_step', repl(i, (-s, n))))
+    out.append(('negative_step_single', [rnd.pick([(-s, n), (-60, 10), (-1, 1), (-2 ** 31, 1), (-1, 2 ** 31), (-2, 3)])]))   # the only archive: no pairwise rule sees it
+    out.append(('negative_step_last', base[:1] + [(-base[0][0] * 2, n2)]))
     out.append(('reversed', list(reversed(base))))
     out.append(('empty', []))
     out.append(('single', [base[0]]))
@@ -188,14 +211,14 @@ def gen_c07(rnd, n, thorough=False):
         def add(op, line):
             lines.append(line); tags['ops'][op] = tags['ops'].get(op, 0) + 1
         bl = boundary_layouts(rnd)
-        for tag, layout in rnd.sample(bl, 7) + [bl[0]] + [rnd.pick([b for b in bl if b[0].startswith('inner_')])]:
+        for tag, layout in rnd.sample(bl, 7) + [bl[0]] + [rnd.pick([b for b in bl if b[0].startswith('inner_')])] + [rnd.pick([b for b in bl if b[0].startswith('negative_')])]:
             tags['rules'][tag] = tags['rules'].get(tag, 0) + 1
             m = rnd.pick([1, 2, 3, 4, 5, 6]) if rnd.chance(0.8) else rnd.pick([0, 7, 8, 9, -1, 2 ** 31, 2 ** 32 + 2, 2 ** 32 + 1, -2 ** 32 + 3, 2 ** 33 + 6, 2 ** 32, 2 ** 40 + 5])
             xff = rnd.pick(XFF_VALID) if rnd.chance(0.75) else rnd.pick(XFF_ALL)
             lay = ' '.join('%d %d' % sn for sn in layout)
             add('newheader', ('enc header %d %08x %d %s' % (m, xff, len(layout), lay)).strip())
             small = sum(nn for _, nn in layout) <= 4000 and all(nn >= 0 for _, nn in layout)
-            if all(0 <= s < 2 ** 31 and 0 <= nn < 2 ** 32 for s, nn in layout):
+            if all(-2 ** 31 <= s < 2 ** 31 and 0 <= nn < 2 ** 32 for s, nn in layout):
                 # decode entry point: the same list as header bytes, with the contiguous offsets,
                 # and with one offset off by one
                 hb = enc_header_py(m & 0xffffffff, xff, layout)
